@@ -132,6 +132,19 @@ theorem new_history_refines (c : HCfg) (cap : Nat) (m0 : Mem) (t0 : HashTable)
   obtain ⟨r1, r2, r3, _, r5⟩ := history_refines c ops t0 m1 Map.empty q2 (by omega) (by rw [q3]; exact List.Perm.refl _)
   exact ⟨r1, r2, r3, by rw [r5]; exact n4⟩
 
+/-- whole life cycle (C06 part for this container): construct, run any history under any allocator
+schedule, destroy — every block is released exactly once (the ledger is back where it started) and
+nothing faults -/
+theorem lifecycle_leak_free (c : HCfg) (cap : Nat) (m0 : Mem) (t0 : HashTable)
+    (hnew : (HashTable.new c cap m0).2.1 = some t0) (ops : List Op) :
+    ((t0.run c ops (HashTable.new c cap m0).2.2).2.2.1.destroy (t0.run c ops (HashTable.new c cap m0).2.2).2.2.2).live = m0.live ∧
+    ((t0.run c ops (HashTable.new c cap m0).2.2).2.2.1.destroy (t0.run c ops (HashTable.new c cap m0).2.2).2.2.2).fault = m0.fault := by
+  obtain ⟨_, _, n3, n4, _⟩ := HashTable.new_spec c cap m0
+  obtain ⟨_, q2, q3, q4, _, q6⟩ := n3 t0 hnew
+  obtain ⟨_, _, r3, r4, r5⟩ := history_refines c ops t0 (HashTable.new c cap m0).2.2 Map.empty q2 (by omega) (by rw [q3]; exact List.Perm.refl _)
+  obtain ⟨d1, d2⟩ := HashTable.destroy_spec c _ (t0.run c ops (HashTable.new c cap m0).2.2).2.2.2 r3 (by omega)
+  exact ⟨by omega, by rw [d2, r5]; exact n4⟩
+
 /-! ## The property in its own vocabulary (facts about the ideal map) -/
 
 /-- a key maps to its most recently stored value, all other keys are untouched -/
@@ -231,6 +244,90 @@ theorem set_wf (c : HCfg) (s : HashSet) (h : s.Inv c) : Set.WF s.abs ∧ s.size 
   refine ⟨abs_wf c s.table h.1, ?_⟩
   unfold HashSet.size HashSet.abs Map.keys
   rw [List.length_map]; exact size_eq c s.table h.1
+
+/-! ### set histories -/
+
+/-- one call on the set refines one step of the ideal set -/
+theorem set_step_history (c : HCfg) (s : HashSet) (op : Set.Op) (m : Mem) (sp : Set)
+    (h : s.Inv c) (hl : s.size + 3 ≤ m.live) (hs : s.abs.Perm sp) :
+    (s.step c op m).1 = (Set.step sp op (HashSet.failedOf op (s.step c op m).1)).1 ∧
+    (s.step c op m).2.1.abs.Perm (Set.step sp op (HashSet.failedOf op (s.step c op m).1)).2 ∧
+    (s.step c op m).2.1.Inv c ∧
+    (s.step c op m).2.2.live + s.size = m.live + (s.step c op m).2.1.size ∧
+    (s.step c op m).2.2.fault = m.fault := by
+  cases op with
+  | add e =>
+    obtain ⟨a1, a2, a3, a4⟩ := HashSet.add_spec c s e m h
+    simp only [HashSet.step]
+    by_cases hok : (s.add c e m).1 = .ok
+    · obtain ⟨b1, b2, b3⟩ := a2 hok
+      simp only [hok, HashSet.failedOf, Set.step]
+      exact ⟨trivial, b1.trans (HashSet.set_insert_perm hs e), a1, b3, a4⟩
+    · obtain ⟨b1, b2, b3, b4⟩ := a3 hok
+      have hf : HashSet.failedOf (Set.Op.add e) ⟨some (s.add c e m).1, none⟩ = some (s.add c e m).1 := by
+        unfold HashSet.failedOf
+        rcases b1 with b1 | b1 <;> rw [b1]
+      rw [hf]
+      simp only [Set.step]
+      exact ⟨trivial, b2.trans hs, a1, by omega, a4⟩
+  | contains e =>
+    obtain ⟨g1, g2⟩ := HashSet.contains_refines c s e m h
+    simp only [HashSet.step, Set.step]
+    rw [g1, g2, HashSet.set_contains_perm hs e]
+    exact ⟨rfl, hs, h, rfl, rfl⟩
+  | remove e =>
+    obtain ⟨p1, p2, p3, p4, p5, p6⟩ := HashSet.remove_spec c s e m h (by omega)
+    simp only [HashSet.step, Set.step]
+    rw [p3, HashSet.set_contains_perm hs e]
+    rw [HashSet.set_contains_perm hs e] at p3
+    cases hc : sp.contains e with
+    | false =>
+      rw [hc] at p3
+      simp only [Bool.false_eq_true, if_false] at p3 ⊢
+      obtain ⟨q1, q2⟩ := p4 (by rw [p3]; simp)
+      rw [q1, q2]
+      exact ⟨trivial, hs, h, rfl, rfl⟩
+    | true =>
+      rw [hc] at p3
+      simp only [if_true] at p3 ⊢
+      obtain ⟨q1, q2⟩ := p5 p3
+      refine ⟨trivial, ?_, p1, by omega, p6⟩
+      rw [p2]; exact HashSet.set_erase_perm hs e
+  | removeAll =>
+    obtain ⟨r1, r2, r3, r4, r5⟩ := HashSet.removeAll_spec c s m h (by omega)
+    simp only [HashSet.step, Set.step]
+    exact ⟨trivial, by rw [r2], r1, by omega, r5⟩
+
+/-- **C02 for the set, all histories.** -/
+theorem set_history_refines (c : HCfg) (ops : List Set.Op) (s : HashSet) (m : Mem) (sp : Set)
+    (h : s.Inv c) (hl : s.size + 3 ≤ m.live) (hs : s.abs.Perm sp) :
+    (s.run c ops m).1 = (Set.run sp ops (s.run c ops m).2.1).1 ∧
+    (s.run c ops m).2.2.1.abs.Perm (Set.run sp ops (s.run c ops m).2.1).2 ∧
+    (s.run c ops m).2.2.1.Inv c ∧
+    (s.run c ops m).2.2.2.live + s.size = m.live + (s.run c ops m).2.2.1.size ∧
+    (s.run c ops m).2.2.2.fault = m.fault := by
+  induction ops generalizing s m sp with
+  | nil => exact ⟨rfl, hs, h, rfl, rfl⟩
+  | cons op ops ih =>
+    obtain ⟨s1, s2, s3, s4, s5⟩ := set_step_history c s op m sp h hl hs
+    obtain ⟨i1, i2, i3, i4, i5⟩ := ih (s.step c op m).2.1 (s.step c op m).2.2 _ s3 (by omega) s2
+    simp only [HashSet.run, Set.run, List.headD_cons, List.tail_cons]
+    refine ⟨by rw [← s1, ← i1], i2, i3, by omega, by rw [i5, s5]⟩
+
+/-- … and from the set constructor -/
+theorem set_new_history_refines (c : HCfg) (cap : Nat) (m0 : Mem) (s0 : HashSet)
+    (hnew : (HashSet.new c cap m0).2.1 = some s0) (ops : List Set.Op) :
+    (s0.run c ops (HashSet.new c cap m0).2.2).1 = (Set.run [] ops (s0.run c ops (HashSet.new c cap m0).2.2).2.1).1 ∧
+    (s0.run c ops (HashSet.new c cap m0).2.2).2.2.1.abs.Perm (Set.run [] ops (s0.run c ops (HashSet.new c cap m0).2.2).2.1).2 ∧
+    (s0.run c ops (HashSet.new c cap m0).2.2).2.2.2.fault = m0.fault := by
+  obtain ⟨_, _, n3, n4⟩ := HashSet.new_spec c cap m0
+  obtain ⟨_, q2, q3, q4⟩ := n3 s0 hnew
+  have hsz : s0.size = 0 := by
+    have := (set_wf c s0 q2).2
+    rw [q3] at this; simpa using this
+  obtain ⟨r1, r2, _, _, r5⟩ := set_history_refines c ops s0 (HashSet.new c cap m0).2.2 [] q2 (by omega) (by rw [q3])
+  exact ⟨r1, r2, by rw [r5]; exact n4⟩
+
 
 /-! ## Non-vacuity -/
 
